@@ -30,6 +30,7 @@ N_POINTS = 4
 
 def plan(tier, seed):
     units = [{"uid": f"probe{i}", "kind": "probe", "i": i} for i in range(1 if tier == "quick" else 8)]
+    units += [{"uid": f"wrapvalue{i}", "kind": "wrapvalue", "i": i} for i in range(4 if tier == "quick" else 60)]
     return units + [{"uid": f"p{i}", "i": i} for i in range(N[tier])]
 
 
@@ -125,9 +126,62 @@ def run_probe(unit, ctx):
     return R.out()
 
 
+def run_wrapvalue(unit, ctx):
+    """Value-only programs with angle-wrap idioms (asin(sin u), ...): generated ProcessModel::model and
+    Model::model against the value oracle, CSE on and off (the derivative oracle does not cover these
+    non-differentiable idioms, so Jacobians are not compared here)."""
+    R = K.Result()
+    rng = K.unit_rng(ID, ctx["seed"], unit)
+    for _ in range(30):
+        defn = gen.program(rng, n_state=(1, 3), n_control=(0, 2), n_calib=(0, 2), n_sensor=(0, 0), depth=2, wraps=True)
+        if any(w_ in __import__("json").dumps(defn["model"]) for w_ in ("asinsin", "acoscos", "atantan")):
+            break
+    R.stats.inc("programs_with_angle_wrap_idioms")
+    orc = O.Oracle(defn)
+    pts = [gen.point(rng, defn, scale=rng.choice([1.0, 3.0, 10.0])) for _ in range(6)]
+    compiler = "clang++-14" if unit["i"] % 3 == 2 else "g++"
+    for cse in (True, False):
+        for which in ("ekf", "model"):
+            w = dict(defn=defn, cse=cse, compiler=compiler, generator=which)
+            eb = cppdrv.EkfBinary(defn, build.Built(defn), {"common_subexpression_elimination": cse},
+                                  with_ekf=(which == "ekf"), compiler=compiler)
+            try:
+                R.evals += 1
+                if not eb.ok:
+                    R.add([K.V(f"cpp:does-not-compile:{which}", f"generated {which} code does not compile: {eb.compile_err[-1200:]}", **w)])
+                    continue
+                R.stats.inc("programs_compiled")
+                cmds = [eb.cal_cmd(defn["calibration_map"])]
+                for pt in pts:
+                    x = {s_: pt[s_] for s_ in defn["state"]}
+                    u = {c: pt[c] for c in defn["control"]}
+                    cmds.append(eb.f_cmd(pt["dt"], x, u) if which == "ekf" else eb.m_cmd(pt["dt"], x, u))
+                res = eb.run(cmds)
+                if res["sanitizer"] or res["rc"] != 0 or not res["lines"] or res["lines"][-1] != ["DONE"]:
+                    R.add([K.V("cpp:sanitizer-or-crash", f"driver rc={res['rc']}: {res['err'][-1200:]}", **w)])
+                    continue
+                R.stats.inc("sanitizer_runs_clean")
+                for pt, toks in zip(pts, res["lines"][1:-1]):
+                    f = dict(zip(eb.state, [cppdrv.unhex(t) for t in toks[1:1 + len(eb.state)]]))
+                    vs = monitors.check_named_values(f, orc.model(orc.env(pt)), "cpp:model",
+                                                     f"[{compiler}, cse={cse}] {'ProcessModel' if which == 'ekf' else 'Model'}::model (angle-wrap program)",
+                                                     R.stats, tag="cpp_model")
+                    for v in vs:
+                        v["witness"].update(point=pt, **w)
+                    R.add(vs)
+                    R.evals += 1
+            finally:
+                eb.close()
+    fp = gen.fingerprint([defn, "wrapvalue"])
+    R.fps_all.append(fp)
+    return R.out()
+
+
 def run_unit(unit, ctx):
     if unit.get("kind") == "probe":
         return run_probe(unit, ctx)
+    if unit.get("kind") == "wrapvalue":
+        return run_wrapvalue(unit, ctx)
     R = K.Result()
     rng = K.unit_rng(ID, ctx["seed"], unit)
     i = unit["i"]
